@@ -14,6 +14,7 @@ import PicoVerif.Model.PicoGrammar
 import PicoVerif.Model.AstWriters
 import PicoVerif.Model.Build
 import PicoVerif.Model.Include
+import PicoVerif.Model.Require
 /-! Line-protocol driver over the executable models (compiled; must not import Mathlib).
 One request per line: `op arg arg ...`; one response line per request.
 Byte strings travel as lower-case hex (`-` = empty). -/
@@ -147,6 +148,44 @@ def parseToks (toks : List Lex.Tok) : String :=
   | .ok (some (ts, _)) => "ok " ++ String.join ((ts.map project).flatten.map showTree)
 
 def pathBytes (p : List Char) : Bytes := p.map (fun c => c.toNat.toUInt8)
+
+/-- `evalreq` argument reader: files with their call lists (kept / stripped), then the locate table -/
+def readCalls : Nat → List String → Option (List Req.Call × List String)
+  | 0, ws => some ([], ws)
+  | n + 1, name :: ugl :: ws =>
+    match parseHex name, readCalls n ws with
+    | some nm, some (cs, rest) =>
+      some ((if ugl == "e" then (.error .build : Req.Call) else .ok (nm, ugl == "1")) :: cs, rest)
+    | _, _ => none
+  | _, _ => none
+
+def readFiles : Nat → List String → Option (List (List Req.Call × List Req.Call) × List String)
+  | 0, ws => some ([], ws)
+  | n + 1, k :: ws =>
+    match k.toNat? with
+    | some k =>
+      match readCalls k ws with
+      | some (keep, s :: ws2) =>
+        match s.toNat? with
+        | some s =>
+          match readCalls s ws2 with
+          | some (strip, ws3) =>
+            match readFiles n ws3 with
+            | some (fs, rest) => some ((keep, strip) :: fs, rest)
+            | none => none
+          | none => none
+        | none => none
+      | _ => none
+    | none => none
+  | _, _ => none
+
+def readLocs : Nat → List String → Option (List (Bytes × Nat × Nat))
+  | 0, _ => some []
+  | n + 1, name :: a :: b :: ws =>
+    match parseHex name, a.toNat?, b.toNat?, readLocs n ws with
+    | some nm, some a, some b, some r => some ((nm, a, b) :: r)
+    | _, _, _, _ => none
+  | _, _ => none
 
 def rowsOfFlat (w : Nat) (flat : Bytes) : List Bytes := chunks (4 * w) flat
 
@@ -433,6 +472,35 @@ def handle (st : St) (line : String) : St × String :=
     | some p, some d, some lp =>
       "ok " ++ showRows ((Inc.requireCandidates (Inc.bytesToPath p) (Inc.bytesToPath d) (Inc.bytesToPath lp)).map pathBytes)
     | _, _, _ => "bad-op"
+  | "evalreq" :: main :: nf :: ws =>
+    match main.toNat?, nf.toNat? with
+    | some main, some nf =>
+      match readFiles nf ws with
+      | some (files, nl :: ws2) =>
+        match nl.toNat? with
+        | some nl =>
+          match readLocs nl ws2 with
+          | some locs =>
+            let w : Req.World := {
+              locate := fun p from_ => (locs.find? fun l => l.1 == p && l.2.1 == from_).map (·.2.2),
+              callsOf := fun f keep => match files[f]? with
+                | some (k, s) => if keep then k else s
+                | none => [] }
+            match Req.evalCalls w (4 * nf + 4 * ws.length + 16) (w.callsOf main true) main [] with
+            | .ok pkgs => "ok " ++ (if pkgs.isEmpty then "-" else " ".intercalate (pkgs.map fun p => s!"{showHex p.name}:{p.file}:{if p.keepLoop then 1 else 0}"))
+            | .error e => showErr e
+          | none => "bad-op"
+        | none => "bad-op"
+      | _ => "bad-op"
+    | _, _ => "bad-op"
+  | ["asmcode", main, pk] =>
+    match parseHex main, (if pk == "." then some [] else (pk.splitOn ":").mapM parseHex) with
+    | some m, some l =>
+      let rec pairs : List Bytes → List (Bytes × Bytes)
+        | a :: b :: r => (a, b) :: pairs r
+        | _ => []
+      "ok " ++ showHex (Req.assembleCode (pairs l) m)
+    | _, _ => "bad-op"
   | ["speclex", h] => (parseHex h).elim "bad-op" fun d =>
       match Spec.Lex.lexSource d with
       | some ts => showToks (.ok ts)
